@@ -12,6 +12,7 @@ from sa.report import Ctx
 
 from .common import generic_sweeps
 
+from .sat_common import check_binary_add
 from .cp_common import check_alldiff_coverage, check_constraint_table, check_small_semantics, check_cumulative_horizon, check_id_allocation, check_solve_is_read_only, check_domain_fields_fixed, check_unsat_sites, default_raises, dispatcher_tags, flattener_tags, produced_tags, shape_dispatch_falls_through, structural_len_subjects
 
 EXPLANATION = (
@@ -153,6 +154,8 @@ def run(ctx: Ctx):
     ctx.step(check_constraint_table, "C05-O13")
     ctx.step(check_small_semantics, "C05-O14", encoder=True, dfs=True)
     ctx.step(check_unsat_sites, "C05-O14")
+    # the encoder emits two-literal clauses with a repeated literal ([-b, -b] for x != x): the SAT back-end files them
+    ctx.step(check_binary_add, "C05-O14")
     generic_sweeps(ctx, skip_stutter_modules=("solvor/sat.py",))
 
 
@@ -464,7 +467,13 @@ def _v_last_variable_shortcut(tree):
     M.insert(g, "var_name = min(", "if len(unassigned) == 1:\n    for val in domains[unassigned[0]]:\n        solutions.append({n: val if n == unassigned[0] else next(iter(d)) for n, d in domains.items() if not n.startswith('_')})\n        if len(solutions) >= solution_limit:\n            return True\n    return False")
 
 
+def _v_binary_add_same_variable_guard(tree):
+    g = M.find_func(tree, "BinaryImplications.add")
+    g.body[0:0] = M.stmts("if lit_var(lit_a) == lit_var(lit_b):\n    return")
+
+
 VARIANTS = [
+    M.Variant("BinaryImplications.add drops a clause whose two literals share a variable: [-b, -b] from x != x vanishes (seed C05-U)", "solvor/sat.py", _v_binary_add_same_variable_guard, "C05-O14"),
     M.Variant("Model.add turns `x != lb` into a raised lower bound (seed C05-S)", CP, _v_add_trims_bounds, "C05-O12"),
     M.Variant("DFS emits every value of the last open variable without assigning it (seed C05-T)", CP, _v_last_variable_shortcut, "C05-O4"),
     M.Variant("linear chain takes min() of an empty set when a term has no values (original defect: the SAT back-end crashes where DFS says INFEASIBLE)", ENC, _v_linear_chain_without_empty_domain_guard, "C05-O14"),
